@@ -2,7 +2,7 @@
    runner and by the generated in-Coq case files. *)
 From Coq Require Import ZArith List Bool.
 From Gabi Require Import Val ModArith Bytes Der Sha256 HashTool GoSem ParamsDef ZkProof Keys RangeProof NonRev Core CL Prover RangeSound Revocation NonRevProver Keyshare MathUtil Codec FilePerm KeyDoc.
-From Gabi Require Cache Concurrency.
+From Gabi Require Cache Concurrency KeyGen.
 Import ListNotations.
 Open Scope Z_scope.
 
@@ -443,9 +443,33 @@ Definition d_cprng_reads (v : val) : val := ret (
   | _ => None
   end).
 
+(* ---- C16: key generation ---- *)
+Definition d_pair_ok (v : val) : val := ret (
+  match v with VL [ln; p; q] => do ln <- as_Z ln; do p <- as_Z p; do q <- as_Z q; Some (of_bool (KeyGen.pair_ok ln p q)) | _ => None end).
+Definition d_can_prove (v : val) : val := ret (
+  match v with
+  | VL [pp; qp; sp; sq] =>
+    do pp <- as_Z pp; do qp <- as_Z qp; do sp <- as_bool sp; do sq <- as_bool sq;
+    let safe := fun x => if x =? 2 * pp + 1 then sp else if x =? 2 * qp + 1 then sq else false in
+    Some (of_bool (KeyGen.can_prove safe pp qp))
+  | _ => None
+  end).
+Definition d_find_match (v : val) : val := ret (
+  match v with VL [ln; l; p] => do ln <- as_Z ln; do l <- as_LZ l; do p <- as_Z p; Some (of_oZ (KeyGen.find_match ln l p)) | _ => None end).
+Definition d_s_accepted (v : val) : val := ret (
+  match v with VL [n; p; q; s] => do n <- as_Z n; do p <- as_Z p; do q <- as_Z q; do s <- as_Z s; Some (of_bool (KeyGen.s_accepted n p q s)) | _ => None end).
+Definition d_derive (v : val) : val := ret (
+  match v with VL [ln; lm; lh; ls; le] => do ln <- as_Z ln; do lm <- as_Z lm; do lh <- as_Z lh; do ls <- as_Z ls; do le <- as_Z le;
+                                          Some (of_LZ (params_to_list (derive ln lm lh ls le))) | _ => None end).
+
 Definition dispatch (fn : Z) (v : val) : val :=
   match fn with
   | 701 => d_cache_trace v
+  | 1601 => d_pair_ok v
+  | 1602 => d_can_prove v
+  | 1603 => d_find_match v
+  | 1605 => d_s_accepted v
+  | 1606 => d_derive v
   | 2001 => d_sched v
   | 2002 => d_cprng_reads v
   | 1501 => d_hash_commit v
